@@ -28,6 +28,7 @@ EXPLANATION = (
     "(COUNT) converters are told the number of inputs wherever the path derives from a "
     "caller's parameter. "
     'Round 7: (INFER) the input count inferred by the converters, evaluated on sample paths, equals sum(len(step)) - steps + 1; (KEYS, shared with C02) no conversion memoised in a per-node entry. '
+    'Round 8: (EMPTYOK) a path parameter is never used as a truth value to choose between alternatives; (DISPATCH, shared with C13) edge and linear paths are told apart per call. '
 )
 ASSUMPTIONS = ("list.pop(i) shifts later positions down by one; bisect arithmetic is not decided",)
 
